@@ -775,12 +775,15 @@ func (r Condition) Valid() (err error) {
 	}
 
 	// verify comparison operator
-	if cop := r.Operator(); cop != nil {
-		if assert, ok := cop.(ComparisonOperator); ok {
-			if !(1 <= int(assert) && int(assert) <= 6) {
-				err = errorf("operator value is bogus")
-				return
-			}
+	cop := r.Operator()
+	if cop == nil {
+		err = errorf("operator value is nil")
+		return
+	}
+	if assert, ok := cop.(ComparisonOperator); ok {
+		if !(1 <= int(assert) && int(assert) <= 6) {
+			err = errorf("operator value is bogus")
+			return
 		}
 	}
 
